@@ -198,6 +198,24 @@ def run(rep: vk.Report):
         # focused corpus with parameters first (coefficients that are Parameters, constants on either side ...), then random trees
         for g, e in common.corpus(rng, rep.tier, 0, focus_profile="all", focus_scale=0.35, pool_kwargs={"with_matrices": False}):
             yield g, e
+        # variables whose natural order (x2 < x10, v[2] < v[10]) differs from the lexicographic order of their names, under
+        # asymmetric weights: any place that sorts by name instead of by the problem's order pairs values with the wrong columns
+        from optyx import Variable as _V, VectorVariable as _VV
+        for k in range(24 if rep.tier == "quick" else 400):
+            r0 = random.Random(rng.random())
+            g = gen.Gen(r0, profile="poly")
+            if k % 2 == 0:
+                vs_ = [_V(nm) for nm in r0.sample(["x1", "x2", "x10", "x11", "x20", "y2", "y10", "y9"], r0.randint(3, 5))]
+            else:
+                vv = _VV("v", 12)
+                vs_ = [vv[j] for j in sorted(r0.sample(range(12), r0.randint(3, 5)))]
+                if not any(j.name in ("v[10]", "v[11]") for j in vs_):
+                    vs_.append(vv[10])
+            lhs_ = None
+            for j, t in enumerate(vs_):
+                term = (1.0 + 0.75 * j) * t if r0.random() < 0.7 else (0.5 + j) * t * t
+                lhs_ = term if lhs_ is None else lhs_ + term
+            yield g, lhs_
         for i in range(n_num):
             r0 = random.Random(rng.random())
             g = gen.Gen(r0, profile=r0.choice(["poly", "smooth", "all"]))
